@@ -106,12 +106,22 @@ def _ll_funnel(c):
     return t
 
 
+def _ll_nuis(c, s=0.05):
+    """constrains x0 only; the remaining parameters are nuisance parameters (flat): the outer bound
+    of such a problem samples them from the unit range (cube dimensions of the mixture)"""
+    d = (c[0] - 0.5) / s
+    t = -0.5 * d * d
+    for ci in c[1:]:
+        t = t + 0.0 * ci
+    return t
+
+
 def _ll_const(c):
     return 0.0 * c[0]
 
 
 LIKES = dict(gauss=_ll_gauss, two=_ll_two, ring=_ll_ring, half=_ll_half, plateau=_ll_plateau,
-             wrap=_ll_wrap, const=_ll_const, funnel=_ll_funnel)
+             wrap=_ll_wrap, const=_ll_const, funnel=_ll_funnel, nuis=_ll_nuis)
 
 BLOB_KINDS = ('none', 'float', 'int', 'two', 'array', 'struct', 'f32')
 
